@@ -83,6 +83,14 @@ def attr_linkage(rep, cd: Codecs, u, rule="codec-symmetry", reader_driven=True):
         if a in reads or got is None or not reader_driven:
             continue
         g0 = got.value if isinstance(got, ast.Attribute) and got.attr == "value" else got
+        if isinstance(g0, ast.Attribute) and norm(g0.value) == "self" and g0.attr != a and u.cls is not None:
+            # two attributes the constructor fills from the same argument hold the same value: the field written from one of them
+            # gives the other back unchanged (an alias kept for compatibility) - nothing is lost
+            from .. import facts as _facts
+            _summ = _facts.init_summary(cd.prog, u.cls)
+            _va, _vb = _summ.attrs.get(a), _summ.attrs.get(g0.attr)
+            if isinstance(_va, ast.Name) and isinstance(_vb, ast.Name) and _va.id == _vb.id and _va.id in _summ.params:
+                continue
         if isinstance(g0, ast.Attribute) and norm(g0.value) == "self" and g0.attr != a and cd.prog.lookup_method(u.cls, g0.attr) is None if u.cls else False:
             rep.fail(rule, mod, fn, obj["node"], f"[attr] attribute {a} is decoded from the field in which the encoder stores `self.{g0.attr}` (the encoder never writes `self.{a}`): its value is lost / replaced on a round trip",
                      construct=f"{norm(head(obj['node']))} :: {a} <- {g0.attr}")
